@@ -9,6 +9,7 @@ type pathState struct {
 	Cells map[*ssa.Alloc]ssa.Value // last value stored into each local cell along this path
 	Path  []*ssa.BasicBlock
 	Calls []ssa.CallInstruction // calls executed along the path (in order)
+	Havoc map[*ssa.BasicBlock]bool // loop headers re-entered through a back-edge: their phis are opaque
 }
 
 func (ps *pathState) clone() *pathState {
@@ -18,6 +19,12 @@ func (ps *pathState) clone() *pathState {
 	}
 	n.Path = append([]*ssa.BasicBlock(nil), ps.Path...)
 	n.Calls = append([]ssa.CallInstruction(nil), ps.Calls...)
+	if len(ps.Havoc) > 0 {
+		n.Havoc = make(map[*ssa.BasicBlock]bool, len(ps.Havoc))
+		for k, v := range ps.Havoc {
+			n.Havoc[k] = v
+		}
+	}
 	return n
 }
 
@@ -50,6 +57,9 @@ func (ps *pathState) Resolve(v ssa.Value) ssa.Value {
 			}
 			return v
 		case *ssa.Phi:
+			if ps.Havoc[x.Block()] {
+				return v
+			}
 			pred := ps.Pred(x.Block())
 			if pred == nil {
 				return v
